@@ -29,3 +29,10 @@ package majority
 //@   at call go#1: ghost nstarted = nstarted + 1
 //@   loop 1
 //@     invariant nstarted == nvisited()
+//@   // C07: the nodes are given until the strategy's own (hard) timeout to answer, not only until its soft timeout
+//@   at call go#1: assert arg1 == ctx
+//@
+//@ // C07 (the one clause of this strategy under contract): the nodes are given until the hard timeout to answer, not
+//@ // only until the soft timeout at half of it
+//@ func (*Service).AttestationData
+//@   at call issueAttestationDataRequests#1: assert arg1 == hardCtx
